@@ -166,7 +166,7 @@ class Proto:
         )
         resource_messages = (
             (msg.options.Extensions[resource_pb2.resource].type, msg)
-            for msg in self.messages.values()
+            for msg in self.all_messages.values()
             if msg.options.Extensions[resource_pb2.resource].type
         )
         return collections.OrderedDict(
